@@ -1,27 +1,38 @@
 #!/usr/bin/env python3
-"""Runs checks against seeded changes: applies /verif/seeded/<id>/patch.diff to /repo's working tree,
-runs `kc.py check <prop> --only ...`, restores /repo.  Usage: mutcheck.py <id> <tier> [harness,harness,...]
-Writes /verif/seeded/<id>/detection.json.  Never commits anything to /repo."""
-import json, subprocess, sys, os, time
+"""Runs checks against seeded changes WITHOUT touching /repo: copies /repo's working tree to a
+scratch directory, applies /verif/seeded/<id>/patch.diff there, and runs
+`kc.py check <prop> --only ...` with VERIF_REPO pointing at the copy and VERIF_OUT at a scratch
+output directory (so evidence/ and replays/ of /verif are not overwritten).  Several of these
+may run at the same time (the memory budget of kc.py is shared across processes).
+
+Usage: mutcheck.py <id> <tier> [harness,harness,...]
+Writes /verif/seeded/<id>/detection.json."""
+import json, subprocess, sys, os, time, shutil
 from pathlib import Path
 V = Path(__file__).resolve().parent.parent
 mid, tier = sys.argv[1], sys.argv[2]
 only = sys.argv[3] if len(sys.argv) > 3 else ""
 d = V / "seeded" / mid
 prop = json.loads((d / "meta.json").read_text())["property"]
-assert subprocess.run(["git", "-C", "/repo", "status", "--porcelain", "--untracked-files=no"],
-                      stdout=subprocess.PIPE).stdout.strip() == b"", "/repo working tree not clean"
-subprocess.check_call(["git", "-C", "/repo", "apply", str(d / "patch.diff")])
+scratch = Path(os.environ.get("VERIF_SCRATCH", "/var/tmp")) / ("verif-mut-%s-%d" % (mid, os.getpid()))
+if scratch.exists():
+    shutil.rmtree(scratch)
+(scratch / "out").mkdir(parents=True)
 t0 = time.time()
 try:
+    subprocess.check_call(["rsync", "-a", "--exclude", "/target", "--exclude", "/.git",
+                           "/repo/", str(scratch / "repo") + "/"])
+    subprocess.check_call(["git", "apply", str(d / "patch.diff")], cwd=scratch / "repo")
     cmd = ["python3", str(V / "engine/kc.py"), "check", prop, "--tier", tier]
     if only:
         cmd += ["--only", only]
     env = dict(os.environ)
+    env["VERIF_REPO"] = str(scratch / "repo")
+    env["VERIF_OUT"] = str(scratch / "out")
     r = subprocess.run(cmd, cwd=V, stdout=subprocess.PIPE, stderr=subprocess.STDOUT, env=env)
     out = r.stdout.decode(errors="replace")
 finally:
-    subprocess.check_call(["git", "-C", "/repo", "checkout", "--", "."])
+    shutil.rmtree(scratch, ignore_errors=True)
 viol = [l for l in out.splitlines() if l.startswith("VIOLATION") or l.startswith("    harness=")]
 inc = [l for l in out.splitlines() if l.startswith("INCONCLUSIVE")]
 res = {"id": mid, "property": prop, "tier": tier, "only": only, "exit_code": r.returncode,
@@ -30,15 +41,10 @@ res = {"id": mid, "property": prop, "tier": tier, "only": only, "exit_code": r.r
        "verif_commit": subprocess.run(["git", "-C", str(V), "rev-parse", "--short", "HEAD"],
                                       stdout=subprocess.PIPE).stdout.decode().strip()}
 (d / "detection.json").write_text(json.dumps(res, indent=1) + "\n")
-# replay files written for a seeded change are not evidence about /repo: remove them
-for l in viol:
-    if "replay=" in l:
-        try:
-            os.unlink(l.split("replay=")[1].strip())
-        except OSError:
-            pass
 print("%s exit=%d detected=%s %.0fs" % (mid, r.returncode, res["detected"], res["wall_s"]))
 for l in viol[:6]:
     print("   ", l[:300])
 for l in inc[:3]:
     print("   ", l[:300])
+if os.environ.get("MUTCHECK_VERBOSE"):
+    print(out[-3000:])
